@@ -277,6 +277,12 @@ def check_eta(eta, r, yc, zc):
         bad('eta_and_radpix_to_detyz', c.tolist(), exp_c.tolist())
     de = abs(e2 - eta) % 360.0
     de = min(de, 360.0 - de)                         # 0 and 360 identified
+    if r2 < 1.0 and r <= 1.0 + 1e-9:
+        # radius exactly 1: the detector point computed in floating point may lie a few ulp INSIDE the unit circle, where the
+        # code's `radpix < 1` branch applies by design; that point is outside the quantifier (radius >= 1), only r is compared
+        if not abs(r2 - r) <= 1e-9:
+            bad('detyz_to_eta_and_radpix(eta_and_radpix_to_detyz)', [e2, r2], [eta, r])
+        return out
     if not (0.0 <= e2 <= 360.0) or not (de <= 1e-9 + math.degrees(slack)) or not abs(r2 - r) <= 1e-9 * max(1.0, r):
         bad('detyz_to_eta_and_radpix(eta_and_radpix_to_detyz)', [e2, r2], [eta, r])
     if not np.all(np.abs(c3 - c) <= 1e-9 * scale + r * slack):
